@@ -6,6 +6,9 @@ import Oracle.Util
    glob <pattern> <name>                                                 → impl=<m|n|e> spec=<0|1>
    sel <org> <qlo> <qhi> N=<name,…> R=<key:org:table:lo:hi,…> U=<…> D=<org:table,…>  → rot=<keys> unrot=<keys>
    del <org> <name> T=<org:name,…>                                       → 0=<names> 1=<names> 2=<names> 3=<names>
+   sid P=<org:index,…>   (any int64 org)   → fmt=ok c=<for every pair the position of the first pair with the same stream-id pre-image>
+   e2e <k> I=<org:index:count,…> Q=<org:expr,…>  (suite tenant_e2e; ingest, rotate after the first k entries, query)
+                                                                         → r0=<ids> r1=<ids> …   (record ids are 1,2,… in ingest order)
    characters outside the modelled alphabet (see Model/Tenant.lean) → out-of-fragment ; anything unparsable, duplicate
    segment keys, a deletion of the empty index name → bad-op -/
 namespace Oracle.C13
@@ -126,12 +129,75 @@ def doDel (args : List String) : String :=
     | _, _, _ => "bad-op"
   | _ => "bad-op"
 
+/-- `org:hexindex` with an arbitrary int64 organisation -/
+def sidPair? (s : String) : Option (Org × Name) :=
+  match s.splitOn ":" with
+  | [o, n] => do let o ← int? o; let n ← name? n; pure (o, n)
+  | _ => none
+
+/-- index of the first element equal to the k-th -/
+def firstEq (l : List (List Char × Name)) (x : List Char × Name) : Nat :=
+  let rec go : List (List Char × Name) → Nat → Nat
+    | [], k => k
+    | y :: r, k => if y = x then k else go r (k + 1)
+  go l 0
+
+def doSid (args : List String) : String :=
+  match args with
+  | [p] =>
+    match (listArg "P" p).bind (·.mapM sidPair?) with
+    | some ps =>
+      let pres := ps.map (fun q => streamPre q.1 q.2)
+      s!"fmt=ok c={String.intercalate "," (pres.map (fun x => toString (firstEq pres x)))}"
+    | none => "bad-op"
+  | _ => "bad-op"
+
+def e2eOrg? (s : String) : Option Org :=
+  match s.toNat? with
+  | some n => if n ≤ 100000 && s.all Char.isDigit then some (n : Int) else none
+  | none => none
+
+/-- index names of the end-to-end share: letters, digits, `.` `_` `-`, a valid index name -/
+def e2eIdxOk (n : Name) : Bool := idxOk n && n.all (fun c => isAlnum c || c = '.' || c = '_' || c = '-')
+
+def ingest? (s : String) : Option (Org × Name × Nat) :=
+  match s.splitOn ":" with
+  | [o, n, c] => do
+    let o ← e2eOrg? o; let n ← name? n; let c ← c.toNat?
+    if e2eIdxOk n && 1 ≤ c && c ≤ 8 then pure (o, n, c) else none
+  | _ => none
+
+def query? (s : String) : Option (Org × Name) :=
+  match s.splitOn ":" with
+  | [o, e] => do let o ← e2eOrg? o; let e ← name? e; if exprInFragment e then pure (o, e) else none
+  | _ => none
+
+def mkRecs (ings : List (Org × Name × Nat)) : List Rec :=
+  let rec go : List (Org × Name × Nat) → Nat → List Rec
+    | [], _ => []
+    | (o, n, c) :: r, next => (List.range c).map (fun k => { id := next + k, org := o, index := n }) ++ go r (next + c)
+  go ings 1
+
+def doE2E (args : List String) : String :=
+  match args with
+  | [rot, i, q] =>
+    match rot.toNat?, (listArg "I" i).bind (·.mapM ingest?), (listArg "Q" q).bind (·.mapM query?) with
+    | some rot, some ings, some qs =>
+      if !(rot ≤ ings.length && ings.length ≤ 12 && qs.length ≤ 16) then "bad-op" else
+      let recs := mkRecs ings
+      String.intercalate " " (qs.zipIdx.map (fun (qk : (Org × Name) × Nat) =>
+        s!"r{qk.2}={String.intercalate "," ((sortNat ((visible recs qk.1.1 qk.1.2).map (·.id))).map toString)}"))
+    | _, _, _ => "bad-op"
+  | _ => "bad-op"
+
 def handle (cmd : String) (args : List String) : Option String :=
   match cmd, args with
   | "tn", "expand" :: r => some (doExpand r)
   | "tn", "glob" :: r => some (doGlob r)
   | "tn", "sel" :: r => some (doSel r)
   | "tn", "del" :: r => some (doDel r)
+  | "tn", "sid" :: r => some (doSid r)
+  | "tn", "e2e" :: r => some (doE2E r)
   | "tn", _ => some "bad-op"
   | _, _ => none
 end Oracle.C13
